@@ -2,6 +2,7 @@ package replay
 
 import (
 	"fmt"
+	"sort"
 
 	"github.com/ipld/go-ipld-prime/datamodel"
 	"github.com/ipld/go-ipld-prime/fluent"
@@ -436,4 +437,136 @@ func ReplayClosureFrontEnds(cs *AsmCase, abortAt int, target string, conc model.
 		checks++
 	}
 	return nil, checks, skipped
+}
+
+// ---- fluent.Reflect / fluent.Reflector / fluent.ToInterface: a Go value tree in, a node out (and back).
+// The node reads as the value with every map's entries in the order the Reflector's MapOrder prescribes (ascending by
+// default) -- at every depth, whatever the value is nested in.
+
+func goTree(v model.Value, conc model.Conc) (interface{}, bool) {
+	switch v.K {
+	case "map":
+		m := map[string]interface{}{}
+		for i := range v.Vs {
+			x, ok := goTree(v.Vs[i], conc)
+			if !ok {
+				return nil, false
+			}
+			m[conc.Key(v.Ks[i])] = x
+		}
+		return m, true
+	case "list":
+		l := make([]interface{}, 0, len(v.Vs))
+		for i := range v.Vs {
+			x, ok := goTree(v.Vs[i], conc)
+			if !ok {
+				return nil, false
+			}
+			l = append(l, x)
+		}
+		return l, true
+	case "link":
+		return nil, false
+	}
+	g, err := conc.Scalar(v)
+	if err != nil || g.IsUint {
+		return nil, false
+	}
+	switch g.Kind {
+	case datamodel.Kind_Null:
+		return nil, true
+	case datamodel.Kind_Bool:
+		return g.B, true
+	case datamodel.Kind_Int:
+		return g.I, true
+	case datamodel.Kind_Float:
+		return g.F, true
+	case datamodel.Kind_String:
+		return g.S, true
+	case datamodel.Kind_Bytes:
+		return append([]byte{}, g.Bs...), true
+	}
+	return nil, false
+}
+
+// sortedBy returns v with the entries of every map ordered by less on the CONCRETE keys.
+func sortedBy(v model.Value, conc model.Conc, less func(x, y string) bool) model.Value {
+	w := model.Value{K: v.K, A: v.A, Ks: append([][]int{}, v.Ks...), Vs: make([]model.Value, len(v.Vs))}
+	for i := range v.Vs {
+		w.Vs[i] = sortedBy(v.Vs[i], conc, less)
+	}
+	if v.K == "map" {
+		idx := make([]int, len(v.Ks))
+		for i := range idx {
+			idx[i] = i
+		}
+		sort.SliceStable(idx, func(a, b int) bool { return less(conc.Key(v.Ks[idx[a]]), conc.Key(v.Ks[idx[b]])) })
+		ks, vs := make([][]int, len(idx)), make([]model.Value, len(idx))
+		for i, j := range idx {
+			ks[i], vs[i] = v.Ks[j], w.Vs[j]
+		}
+		w.Ks, w.Vs = ks, vs
+	}
+	return w
+}
+
+func reflectChecks(v model.Value, np datamodel.NodePrototype, target string, conc model.Conc, checks *int) *run.Finding {
+	tree, ok := goTree(v, conc)
+	if !ok {
+		return nil
+	}
+	// the value nested once more in a list and in a map: the order must hold at every depth
+	for _, wrap := range []string{"", "list", "map"} {
+		in, want := tree, v
+		switch wrap {
+		case "list":
+			if np != basicnode.Prototype.Any {
+				continue
+			}
+			in = []interface{}{tree}
+			want = model.Value{K: "list", A: []int{}, Ks: [][]int{}, Vs: []model.Value{v}}
+		case "map":
+			if np != basicnode.Prototype.Any {
+				continue
+			}
+			in = map[string]interface{}{"w": []interface{}{tree}}
+			want = model.Value{K: "map", A: []int{}, Ks: [][]int{{'w'}}, Vs: []model.Value{{K: "list", A: []int{}, Ks: [][]int{}, Vs: []model.Value{v}}}}
+		}
+		wc := conc
+		if wrap == "map" {
+			wc = model.Conc{} // the wrapper's key is literal; only usable when the concretisation is the plain one
+			if conc != (model.Conc{}) {
+				continue
+			}
+		}
+		for _, ord := range []struct {
+			name string
+			less func(x, y string) bool
+			r    fluent.Reflector
+		}{
+			{"default (ascending)", func(x, y string) bool { return x < y }, fluent.Reflector{MapOrder: func(x, y string) bool { return x < y }}},
+			{"descending", func(x, y string) bool { return x > y }, fluent.Reflector{MapOrder: func(x, y string) bool { return x > y }}},
+		} {
+			var n datamodel.Node
+			var err error
+			if p := model.Safe(func() {
+				if ord.name == "default (ascending)" {
+					n, err = fluent.Reflect(np, in)
+				} else {
+					n, err = ord.r.Reflect(np, in)
+				}
+			}); p != nil {
+				return &run.Finding{Step: -1, Target: "fluent.Reflect(" + target + ")", Rule: "Reflect:ok", Class: "panic", Detail: fmt.Sprintf("%v (wrapped in %q, order %s): %v", v, wrap, ord.name, p)}
+			}
+			if err != nil {
+				return &run.Finding{Step: -1, Target: "fluent.Reflect(" + target + ")", Rule: "Reflect:ok", Class: "error", Detail: fmt.Sprintf("%v (wrapped in %q, order %s): %v", v, wrap, ord.name, err)}
+			}
+			if m := wc.CheckObs(n, sortedBy(want, wc, ord.less), model.ObsOpts{NoLookups: true}); m != nil {
+				return &run.Finding{Step: -1, Target: "fluent.Reflect(" + target + ")", Rule: "Reflect:value-in-MapOrder/" + m.Field, Class: "mismatch",
+					Detail: fmt.Sprintf("%v (wrapped in %q, order %s): %v", v, wrap, ord.name, m)}
+			}
+			*checks++
+		}
+	}
+	return nil
 }
